@@ -372,7 +372,7 @@ theorem cinv_step (c : Ctl) (h : CInv c) (op : CtlOp) : CInv (c.step op).1 := by
     · exact h0
     · rename_i hm; exact cinv_setMode _ h0 a m hm
   | verify a rwc woc ckp rev o1 o2 ck => exact cinv_stepVerify _ h0 a rwc woc ckp rev o1 o2 ck
-  | write off len f => exact cinv_stepWrite _ h0 off len f
+  | write off len f t => exact cinv_stepWrite _ h0 off len f t
   | sync f => exact cinv_stepSync _ h0 _ f
   | unmap f => exact cinv_stepSync _ h0 _ f
   | read off len t => exact cinv_stepRead _ h0 off len t
